@@ -285,7 +285,8 @@ class Engine:
         r = str(r)
         if r == 'unsat' and timeout >= 20000 and XCHECK['every']:
             XCHECK['seen'] += 1
-            if XCHECK['seen'] % XCHECK['every'] == 0:
+            # at most 8 cross-checks per job: each costs up to 20 s of the job's budget (heavy QF_NRA queries are `unknown` in cvc5 anyway)
+            if XCHECK['seen'] % XCHECK['every'] == 0 and XCHECK['checked'] < 8:
                 cross_check(s)
         return r, (s.model() if r == 'sat' else None)
 
